@@ -10,8 +10,10 @@ use crate::{Ctx, Tier};
 use serde_json::{json, Value};
 use std::time::Duration;
 
+pub mod embedprops;
 pub mod handleprops;
 pub mod pairprops;
+pub mod pathprops;
 pub mod treeprops;
 
 pub fn run_check(ctx: &Ctx, id: &str) -> i32 {
@@ -20,6 +22,8 @@ pub fn run_check(ctx: &Ctx, id: &str) -> i32 {
         "C04" => handleprops::run_c04(ctx),
         "C14" => handleprops::run_c14(ctx),
         "C02" => pairprops::run_c02(ctx),
+        "C18" => embedprops::run_c18(ctx),
+        "C06" => pathprops::run_c06(ctx),
         "C07" => pairprops::run_c07(ctx),
         _ => {
             eprintln!("unknown property {}", id);
